@@ -199,6 +199,10 @@ let () =
               let k = geti kv "n" in
               let (g, rcv) = topen !tomb_bug (n_of_int !tomb_pages) !tomb_dev in
               let ts = List.init k (fun i -> let s = !tomb_next + i in { t_hash = n_of_int (s * 7); t_seq = n_of_int s }) in
+              let ts = match gets_d kv "perm" "0" with
+                | "1" -> List.rev ts
+                | "2" -> let (a, b) = List.partition (fun t -> (int_of_n t.t_seq) mod 2 = 0) ts in a @ b
+                | _ -> ts in
               tomb_next := !tomb_next + k;
               tomb_dev := (tappend g ts).l_slots;
               let seqs = List.map (fun t -> int_of_n t.t_seq) rcv in
